@@ -27,13 +27,16 @@
       4  updates_only: the sync is not first; otherwise: a leaf present when
          the walk started (mode S) / present throughout the run (mode A) has no
          update before the sync
-      5  hang or panic
-     11  tag 2 inside the known class 7.16: the path was updated by one writer
-         and deleted by another writer of the same target. *)
+      5  hang or panic.
+    (Until commit b865e5c a tag 11 marked convergence failures of a path updated
+    by one writer and deleted by another writer of the same target, KF-C04-1;
+    with the per-target write mutex an overtaking announcement is a plain
+    violation again.) *)
 From Gnmi Require Import Base.Prelude Stream.StreamLts.
 Open Scope Z_scope.
 
-Inductive sobs := ONone | OW (r : wres) | OResp (r : resp).
+Inductive sobs := ONone | OW (r : wres) | OResp (r : resp)
+| ODeq (dup qlen : nat).   (* C08: what updateClientStats was given at a dequeue *)
 
 Inductive cstep :=
 | CL (lb : label)
@@ -44,7 +47,6 @@ Record case := mkCase {
   c_ed : bool;
   c_nw : nat;
   c_subs : list (list path * bool);
-  c_wops : list (nat * wop);              (* every write of the run (writer, op), for the known class *)
   c_steps : list (cstep * sobs);
   c_streams : list (list resp);
   c_ended : list bool;
@@ -82,16 +84,11 @@ Definition ocont_eqb (a b : option (Z * Z)) : bool :=
 
 (** ** Model side *)
 
-(* DEFECT C04_1 (known finding KF-C04-1): cache.Target.GnmiUpdate holds no lock between the
-   tree write and the feed callback, so writes of two goroutines on one target overlap and
-   the model side must allow it ([h_owt = false]).  Once fixes/C04_1_target_write_lock.diff
-   is in, set [fixed_C04_1 := true]: the model side then runs with [h_owt = true] (a write
-   is enabled only when no other writer has announcements pending on the target), and the
-   harness must be run with VERIF_C04_FIXED_1=1 (a writer waiting for the target's write
-   lock counts as blocked). *)
-Definition fixed_C04_1 : bool := false.
-
-Definition free (ed : bool) : hyps := mkHyps fixed_C04_1 false ed.
+(* The model side runs the code as it is at HEAD: with the per-target write mutex
+   (StreamLts.step = step_gen true; commit b865e5c fixed KF-C04-1), with no hypothesis on
+   the subscription paths ([h_agree = false]: every behaviour of the code must be a
+   behaviour of the model). *)
+Definition free (ed : bool) : hyps := mkHyps false ed.
 
 Fixpoint run_labels (h : hyps) (st : state) (ls : list label) : option state :=
   match ls with
@@ -144,6 +141,18 @@ Definition cstep_run (h : hyps) (st : state) (c : cstep) : option (state * sobs)
           end
       | None => None
       end
+  | CL (LDeq s) =>
+      match step h st (LDeq s) with
+      | Some st' =>
+          match nth_error (st_subs st') s with
+          | Some sb => match s_infl sb with
+                       | Some (_, d) => Some (st', ODeq d (List.length (s_queue sb)))
+                       | None => None
+                       end
+          | None => None
+          end
+      | None => None
+      end
   | CL lb => option_map (fun st' => (st', ONone)) (step h st lb)
   | CRegAll s =>
       option_map (fun st' => (st', ONone))
@@ -157,6 +166,8 @@ Definition sobs_eqb (a b : sobs) : bool :=
   | ONone, ONone => true
   | OW x, OW y => wres_eqb x y
   | OResp x, OResp y => resp_eqb x y
+  | ODeq d q, ODeq d' q' => Nat.eqb d d' && Nat.eqb q q'
+  | ONone, ODeq _ _ => true      (* the pair was not observed (C04 runs; start of a subscription) *)
   | _, _ => false
   end.
 
@@ -217,18 +228,6 @@ Fixpoint before_sync (rs : list resp) : list resp :=
   | r :: rs' => r :: before_sync rs'
   end.
 
-(** known class 7.16: [p] updated by one writer and deleted by another *)
-Definition kf716 (c : case) (p : path) : bool :=
-  existsb (fun wo1 => match snd wo1 with
-    | WUpd p1 _ _ =>
-        path_eqb p1 p &&
-        existsb (fun wo2 => negb (Nat.eqb (fst wo1) (fst wo2)) &&
-                            match snd wo2 with
-                            | WDel d _ _ => covers d p
-                            | WDelSub d => covers d p
-                            | _ => false end) (c_wops c)
-    | _ => false end) (c_wops c).
-
 Definition conv_path (c : case) (qs : list path) (uo : bool) (rs : list resp) (p : path) : N :=
   let m := existsb (fun q => covers q p) qs in
   let cp := existsb (fun q => compat q p) qs in
@@ -238,7 +237,7 @@ Definition conv_path (c : case) (qs : list path) (uo : bool) (rs : list resp) (p
       else negb (ocont_eqb (pcont (c_ed c) (replay_path p None rs)) (pcont (c_ed c) (dlookup p (c_dump c))))
     else if cp then false
     else existsb (path_eqb p) (upd_paths rs) in
-  if bad then (if kf716 c p then 11%N else 2%N) else 0%N.
+  if bad then 2%N else 0%N.
 
 Definition spec_sub (c : case) (i : nat) (qu : list path * bool) : list (nat * N) :=
   let rs := nth i (c_streams c) [] in
